@@ -141,7 +141,7 @@ def widthsStr : String :=
   let i := INT_BITS / 8
   let z := SIZE_T_BITS / 8
   s!"int={i},{i},{i},{i} size_t={z},{z} ptr={PTR_BYTES} structs={DLIST_HEAD_BYTES},{SLIST_HEAD_BYTES},{HLIST_NODE_BYTES},{HLIST_HEAD_BYTES},{DLIST_HEAD_BYTES},{DLIST_HEAD_BYTES}" ++
-  s!" c={i} {i} {DLIST_HEAD_BYTES} {SLIST_HEAD_BYTES} {HLIST_NODE_BYTES} {HLIST_HEAD_BYTES} poison={hexNat POISON1} {hexNat POISON2} bound={IS_CORRECT_BOUND}" ++
+  s!" c={i} {i} {DLIST_HEAD_BYTES} {SLIST_HEAD_BYTES} {HLIST_NODE_BYTES} {HLIST_HEAD_BYTES} bound={IS_CORRECT_BOUND}" ++
   s!" off={XOFF.toNat},{(memberOffsetof XOFF).toNat},{(memberOffsetof 80#64).toNat} msize={DLIST_HEAD_BYTES},{SLIST_HEAD_BYTES},{HLIST_NODE_BYTES},{24 + DLIST_HEAD_BYTES + INT_BYTES + 12 + DLIST_HEAD_BYTES + SLIST_HEAD_BYTES + HLIST_NODE_BYTES}"
 
 /-- the fixture of the macro exercise: object k at `MB + 96 k`, members la/lb/sl/hl at 24/56/72/80 -/
